@@ -9,7 +9,7 @@ LEVEL_NOTE_COMMON = (
     "Trusted: Coq 8.16.1 kernel + vm_compute; the hand-written Gallina model (tied to /repo by the "
     "correspondence check that runs model and implementation on the same inputs, by data regenerated from "
     "the imported modules and - where named - by programs/methods regenerated from the source by the fail-closed "
-    "translators harness/robot_translate.py, harness/pytr.py, harness/exec_translate.py and harness/c15_translate.py, whose reading of each Python statement form is trusted); "
+    "translators harness/robot_translate.py, harness/pytr.py, harness/exec_translate.py, harness/c15_translate.py and harness/c08_translate.py, whose reading of each Python statement form is trusted); "
     "the Python harness; CPython/wpilib-sim/ntcore. No axioms of our own; "
     "Print Assumptions of every property theorem is checked on every run. ")
 
@@ -47,11 +47,13 @@ CLAIMED = {
         text="Theorems (Coq, every robot definition and subclass relation): after startup every public unset annotated attribute of every "
              "component/mode is exactly the object picked from robot attributes + ALL components by name, else '<cname>_<name>', and is an "
              "instance of the annotated type; injection precedes the first setup(); order independence under permutation of declarations; "
-             "preset/private attributes untouched; constructor parameters only from robot attributes and earlier components; startup fails "
-             "iff a request is unsatisfied or mistyped; falsy values inject. Tied to inject.py/_create_components by correspondence on "
-             "generated robots (object identity).",
+             "preset/private attributes untouched; constructor parameters only from robot attributes and earlier components (declared "
+             "defaults are no substitute); startup fails iff a request is unsatisfied or mistyped; falsy values inject. Tied to the source "
+             "twice: get_injection_requests()/find_injections() of inject.py are regenerated from the current source on every run and "
+             "proved equal to the model's functions (c08_translate, Inject/SrcInjectProofs.v); _create_components and the rest by "
+             "correspondence on generated robots (object identity).",
         note="Closed under the global context. isinstance, get_type_hints order, hasattr/dir are inputs of the model (trusted CPython).",
-        technique="Coq proof (induction over component lists, Permutation) + correspondence on generated robots evaluated in Coq",
+        technique="Coq proof (induction over component lists, Permutation) + inject.py regenerated from the source and proved equal to the model (c08_translate) + correspondence on generated robots evaluated in Coq",
         design="6.5"),
     "C12": dict(
         text="Theorems (Coq, every list of class bodies in MRO order, every signature, every reserved-name list): build succeeds iff exactly "
